@@ -16,7 +16,8 @@ RULE = ("enumerated month stream: starts on day 1/28/29/30/31 of every month of 
         "(years 1 and 9999, results that leave 1..9999); dst-target stream: for each chosen zone (quick 60 incl. the odd ones, thorough all) and each chosen gap/overlap, "
         "a start that is a whole number of days/weeks/months before or after a wall probe inside/around the gap/overlap, so that the calendar result lands there "
         "(add, subtract, + Duration, - Duration, + (-d), subtract(components)); random integer tuples (years, months up to 1e4, weeks, days up to 1e5, h, m, s, us, either sign) "
-        "over Date / naive / fixed-offset / named zones; Interval and plain-timedelta operands. non-trivial = distinct (entry, zone, start, amounts).")
+        "over Date / naive / fixed-offset / named zones; Interval operands (+, -, + (-iv), subtract(components of iv)) and plain-timedelta operands; the inputs of the two repaired "
+        "findings (dt - Duration with days/weeks across an offset change, dt - Interval with years/months) as ordinary cases. non-trivial = distinct (entry, zone, start, amounts).")
 EXHAUSTIVE = {"quick": False, "thorough": False}
 TRUSTED = ["zoneinfo.ZoneInfo and the tzdata tables (specification side of the normalisation oracle, as in C02); calendar.monthrange and naive datetime + timedelta (specification side of the month step and shift)",
            "Interval operands are described to the model by the values of their accessors (years .. microseconds, _total) computed by a stdlib re-implementation in the harness and "
@@ -286,7 +287,7 @@ def cases(tier, seed):
     out = []
     quick = tier != "thorough"
     k = 0
-    # ---- witnesses of the listed findings
+    # ---- the inputs of the two repaired findings (sub-duration-elapsed, sub-interval-double-count): ordinary cases, they must pass the oracle
     paris = T.wall_of(_dt.datetime(2013, 3, 31, 12, 0, 0))
     out.append({"stream": "witness", "fn": "minus", "args": ["Europe/Paris", paris, 0, ["dur", [0, 0, 0, 1, 0, 0, 0, 0]]]})
     out.append({"stream": "witness", "fn": "plus_neg", "args": ["Europe/Paris", paris, 0, ["dur", [0, 0, 0, 1, 0, 0, 0, 0]]]})
@@ -294,6 +295,14 @@ def cases(tier, seed):
     wa, wb = T.wall_of(_dt.datetime(2020, 1, 1)), T.wall_of(_dt.datetime(2021, 3, 5, 6, 0, 0))
     out.append({"stream": "witness", "fn": "minus", "args": ["UTC", wb, 0, ["iv", wa, wb]]})
     out.append({"stream": "witness", "fn": "plus", "args": ["UTC", wa, 0, ["iv", wa, wb]]})
+    out.append({"stream": "witness", "fn": "plus_neg", "args": ["UTC", wb, 0, ["iv", wa, wb]]})
+    out.append({"stream": "witness", "fn": "sub_comp", "args": ["UTC", wb, 0, ["iv", wa, wb]]})
+    # the same two shapes on other offset changes / another Interval with years and months
+    out.append({"stream": "witness", "fn": "minus", "args": ["America/New_York", T.wall_of(_dt.datetime(2021, 11, 7, 12, 0, 0)), 0, ["dur", [0, 0, 1, 0, 0, 0, 0, 0]]]})
+    out.append({"stream": "witness", "fn": "minus", "args": ["Europe/Paris", T.wall_of(_dt.datetime(2013, 10, 28, 0, 30, 0)), 0, ["dur", [0, 0, 0, 0, 36, 0, 0, 0]]]})
+    wc, wd = T.wall_of(_dt.datetime(2011, 11, 30, 23, 0, 0)), T.wall_of(_dt.datetime(2024, 2, 29, 1, 30, 0, 5))
+    out.append({"stream": "witness", "fn": "minus", "args": ["Europe/Paris", T.wall_of(_dt.datetime(2024, 3, 31, 12, 0, 0)), 0, ["iv", wc, wd]]})
+    out.append({"stream": "witness", "fn": "minus", "args": [None, wd, 0, ["iv", wd, wc]]})
     # ---- enumerated month stream
     mdeltas = [0, 1, -1, 2, -2, 11, -11, 12, -12, 13, -13, 23, -23, 24, -24, 25, -25]
     ydeltas = [0, 1, -1, 4, -4]
@@ -431,6 +440,8 @@ def cases(tier, seed):
         Wb = Wa + span
         r = rnd.random()
         fn = "plus" if k % 2 else "minus"
+        if r >= 0.15 and k % 5 == 0:
+            fn = "plus_neg" if k % 2 else "sub_comp"          # dt + (-iv) / dt.subtract(components of iv)
         if r < 0.15:
             out.append({"stream": "interval", "fn": "date_" + fn, "args": [Wa // US_DAY * US_DAY if k % 3 else (Wb // US_DAY * US_DAY), ["iv", Wa, Wb]]})
             continue
@@ -573,7 +584,15 @@ def impl_run(cases):
                 elif fn == "minus":
                     res = start - op
                 elif fn == "plus_neg":
-                    res = start + (-op)
+                    nop = -op
+                    if a[3][0] == "iv":
+                        # -iv is the reversed Interval: it must have the components the model is given for it
+                        ncomps, ntotal = iv_components(a[3][2], a[3][1])
+                        nobs = [nop.years, nop.months, nop.weeks, nop.remaining_days, nop.hours, nop.minutes, nop.remaining_seconds, nop.microseconds]
+                        if nobs != ncomps or nop._total != ntotal or type(nop).__name__ != "Interval":
+                            out.append([7, 6] + nobs)
+                            continue
+                    res = start + nop
                 elif fn == "sub_comp":
                     res = start.subtract(years=op.years, months=op.months, weeks=op.weeks, days=op.remaining_days, hours=op.hours,
                                          minutes=op.minutes, seconds=op.remaining_seconds, microseconds=op.microseconds)
@@ -616,6 +635,11 @@ def model_calls(c, backend):
         ws = _targets(c)
         lo, hi = T.unix_of_wall(min(ws)) - 100000, T.unix_of_wall(max(ws)) + 100000
         zenc, kind = T.zone_enc(spec, lo, hi), 1
+    if fn in ("plus_neg", "sub_comp") and a[3][0] == "iv":
+        # dt + (-iv): `+` with the reversed Interval;  dt.subtract(components of iv): subtract with the accessor values
+        if fn == "plus_neg":
+            return [("dt_plus", zenc + [kind, W, f] + _op_enc(["iv", a[3][2], a[3][1]]))]
+        return [("dt_subtract", zenc + [kind, W, f] + iv_components(a[3][1], a[3][2])[0])]
     rest = list(a[3]) if fn in ("add", "subtract") else _op_enc(a[3])
     return [(MODEL_FN[fn], zenc + [kind, W, f] + rest)]
 
@@ -704,7 +728,8 @@ def oracle(c, backend, r):
 
 
 def known(c, backend, r):
-    """Listed findings, by call site and region."""
+    """Listed findings, by call site and region.  Both are `fixed` (DateTime._subtract_timedelta now passes the Duration's components to
+    subtract()): the predicates still recognise the old behaviour, so a regression is reported as a VIOLATION under the finding's id."""
     fn, a = c["fn"], c["args"]
     if fn != "minus" or a[3][0] == "td":
         return None
@@ -732,9 +757,13 @@ LEVEL_TEXT = ("Machine-checked Coq theorems, for ALL integer amounts of either s
               "(ym_add), the day clamped to min(days-in-month, day), then an exact shift by (7*weeks+days, h, m, s, us) on the wall clock, ValueError exactly when the intermediate year "
               "leaves 1..9999 and OverflowError exactly when the shifted value does; DateTime.add with calendar units is the C02 normalisation (default fold 1, zone kept) of that wall value "
               "for every well-formed zone; subtract is add of the negated amounts; Date.add / + / - use years, months, weeks, remaining_days (plain timedelta: .days); "
-              "dt + Duration is add(**_signature); `dt - d == dt + (-d)` is refuted with witnesses (elapsed-time subtraction; Interval years/months counted twice) and proved on the region where it holds. "
+              "dt + Duration is add(**_signature); for every Duration d `dt - d == dt.subtract(**components of d) == dt + (-d)` (-d as Duration.__neg__ builds it, its own construction may raise), "
+              "for an Interval `dt - iv == dt.subtract(**components) == dt + (the Interval with the negated components)`, and `dt - d` with a year/month/week/day component is the C02 normalisation of the "
+              "wall-clock target (proved in full after the repair of DateTime._subtract_timedelta; the two former witnesses are theorems and ordinary cases of the correspondence). "
               "The model is tied to /repo by translation of add_duration and correspondence on every month-length x sign x overflow combination and on results landing in real gaps/overlaps, both backends.")
 DESIGN_REF = "DESIGN.md section 4 C04"
 LEVEL_NOTE = ("Trusted: Coq kernel+VM; Spec/Zone.v, Spec/NativeDT.v, Spec/TdFloat.v as models of zoneinfo / naive datetime arithmetic / CPython floats (validated by correspondence); "
-              "hand models Model/CalendarArith.v, Model/TzConvert.v, Model/Duration.v (validated by correspondence); the exact-float hypothesis of the _partial theorem is stated explicitly.")
+              "hand models Model/CalendarArith.v, Model/TzConvert.v, Model/Duration.v (validated by correspondence). The findings sub-duration-elapsed and sub-interval-double-count are fixed: "
+              "nothing is excluded for them, and known() still recognises the old behaviour so that a regression is reported as a VIOLATION. That the reversed Interval -iv has the negated components is observed on "
+              "every case of the harness (components of an Interval are C05/C06).")
 TECHNIQUE = "translation of add_duration + Coq proofs (lia/nia over Z, case analysis) + differential correspondence with a stdlib/zoneinfo oracle"
